@@ -3,12 +3,6 @@ from pyvc.registry import contract
 
 TH = ["types", "events", "values"]
 
-contract("monkeytype.tracing:get_func", props=["C02"], theories=TH, mode="assumed",
-         params={"frame": "Frame"}, result="Opt[Func]",
-         ensures={"post:code": "implies(result is not None, code_of(result) is code_of(frame))"},
-         raises={"Exception": None},
-         note="lookup over f_globals / MRO / previous frames with getattr_static: bounded (runtime/props/c02.py)")
-
 contract("monkeytype.tracing:CallTracer._get_func", props=["C02", "C18"], theories=TH, pure=False, modifies=["cache"],
          params={"self": "Tracer", "frame": "Frame"}, result="Opt[Func]",
          requires={"cache-wf": "forall(self.cache, lambda c: lookup(self.cache, c) is None or code_of(lookup(self.cache, c)) is c)"},
@@ -131,3 +125,28 @@ contract("monkeytype.tracing:trace_calls", props=["C03", "C06"], theories=TH, pu
          # carve-out (known finding C03-flush-raises): an exception raised by logger.flush() itself propagates out of the
          # with-block (the profiler has been restored and flush was called once); no other exception can originate here
          raises={"Exception": None})
+
+# ---- function lookup (C02: "attributed to the function whose code ran")
+contract("monkeytype.tracing:_has_code", props=["C02"], theories=TH + ["cli"],
+         params={"func": "Opt[Callee]", "code": "Code"}, result="Opt[Callee]",
+         ensures={"post:code": "implies(result is not None, callee_code(result) is code)",
+                  "post:found-direct": "implies(func is not None and callee_code(func) is code, result is func)"},
+         loops={0: {"inv": {"head": "func is entry('func') or entry('func') is None or callee_code(entry('func')) is not code"}}},
+         note="termination of the __wrapped__ walk is not claimed (a cyclic chain loops in the real code as well)")
+
+
+contract("monkeytype.tracing:get_func_in_mro", props=["C02"], theories=TH + ["cli"],
+         params={"obj": "Val", "code": "Code"}, result="Opt[Callee]",
+         ensures={"post:code": "implies(result is not None, callee_code(result) is code)"})
+
+contract("monkeytype.tracing:get_locals_from_previous_frames", props=["C02"], theories=TH, mode="assumed",
+         params={"frame": "Frame"}, result="Seq[Callee]", ensures={"post:def": "result is prev_locals(frame)"},
+         note="generator over frame.f_back chains: the values of the locals of the frame and of all its callers")
+
+contract("monkeytype.tracing:get_func", props=["C02"], theories=TH + ["cli"],
+         params={"frame": "Frame"}, result="Opt[Func]",
+         # attributed to the function whose code ran: whatever the four lookup stages find has exactly the frame's code object
+         ensures={"post:code": "implies(result is not None, callee_code(result) is code_of(frame))"},
+         loops={0: {"iter": "frame.f_globals.values()", "inv": {"none-yet": "func is None or callee_code(func) is code_of(frame)"}},
+                1: {"iter": "get_locals_from_previous_frames(frame)", "inv": {"none-yet": "func is None or callee_code(func) is code_of(frame)"}},
+                "tags": {"func": "Opt[Callee]"}})
